@@ -1,0 +1,147 @@
+//go:build verif
+
+package sam
+
+// Machine-checked contracts for /verif/govc (contract-based deductive
+// verification). Comments only; this file compiles to nothing and is only
+// read with the build tag "verif".
+
+// Flag bits: the oracle is the bit table of the SAM specification (0x1 template
+// having multiple segments, 0x2 each segment properly aligned, 0x4 segment
+// unmapped, 0x8 next segment unmapped, 0x10 SEQ reverse complemented, 0x20 SEQ of
+// the next segment reverse complemented, 0x40 first segment, 0x80 last segment,
+// 0x100 secondary alignment, 0x200 not passing filters, 0x400 PCR or optical
+// duplicate, 0x800 supplementary alignment), not the constants of flag.go.
+// Verified in bit-vector mode over all 2^64 flag words.
+
+//@ func Flag.Multiple
+//@   props C03
+//@   mode bv
+//@   ensures result == (f & 0x1 != 0)
+
+//@ func Flag.SetMultiple
+//@   props C03
+//@   mode bv
+//@   modifies f
+//@   ensures *f == (value ? old(*f) | 0x1 : old(*f) &^ 0x1)
+
+//@ func Flag.Each
+//@   props C03
+//@   mode bv
+//@   ensures result == (f & 0x2 != 0)
+
+//@ func Flag.SetEach
+//@   props C03
+//@   mode bv
+//@   modifies f
+//@   ensures *f == (value ? old(*f) | 0x2 : old(*f) &^ 0x2)
+
+//@ func Flag.Unmapped
+//@   props C03
+//@   mode bv
+//@   ensures result == (f & 0x4 != 0)
+
+//@ func Flag.SetUnmapped
+//@   props C03
+//@   mode bv
+//@   modifies f
+//@   ensures *f == (value ? old(*f) | 0x4 : old(*f) &^ 0x4)
+
+//@ func Flag.Unmapped2
+//@   props C03
+//@   mode bv
+//@   ensures result == (f & 0x8 != 0)
+
+//@ func Flag.SetUnmapped2
+//@   props C03
+//@   mode bv
+//@   modifies f
+//@   ensures *f == (value ? old(*f) | 0x8 : old(*f) &^ 0x8)
+
+//@ func Flag.ReverseComplement
+//@   props C03
+//@   mode bv
+//@   ensures result == (f & 0x10 != 0)
+
+//@ func Flag.SetReverseComplement
+//@   props C03
+//@   mode bv
+//@   modifies f
+//@   ensures *f == (value ? old(*f) | 0x10 : old(*f) &^ 0x10)
+
+//@ func Flag.ReverseComplement2
+//@   props C03
+//@   mode bv
+//@   ensures result == (f & 0x20 != 0)
+
+//@ func Flag.SetReverseComplement2
+//@   props C03
+//@   mode bv
+//@   modifies f
+//@   ensures *f == (value ? old(*f) | 0x20 : old(*f) &^ 0x20)
+
+//@ func Flag.First
+//@   props C03
+//@   mode bv
+//@   ensures result == (f & 0x40 != 0)
+
+//@ func Flag.SetFirst
+//@   props C03
+//@   mode bv
+//@   modifies f
+//@   ensures *f == (value ? old(*f) | 0x40 : old(*f) &^ 0x40)
+
+//@ func Flag.Last
+//@   props C03
+//@   mode bv
+//@   ensures result == (f & 0x80 != 0)
+
+//@ func Flag.SetLast
+//@   props C03
+//@   mode bv
+//@   modifies f
+//@   ensures *f == (value ? old(*f) | 0x80 : old(*f) &^ 0x80)
+
+//@ func Flag.Secondary
+//@   props C03
+//@   mode bv
+//@   ensures result == (f & 0x100 != 0)
+
+//@ func Flag.SetSecondary
+//@   props C03
+//@   mode bv
+//@   modifies f
+//@   ensures *f == (value ? old(*f) | 0x100 : old(*f) &^ 0x100)
+
+//@ func Flag.NotPassing
+//@   props C03
+//@   mode bv
+//@   ensures result == (f & 0x200 != 0)
+
+//@ func Flag.SetNotPassing
+//@   props C03
+//@   mode bv
+//@   modifies f
+//@   ensures *f == (value ? old(*f) | 0x200 : old(*f) &^ 0x200)
+
+//@ func Flag.Duplicate
+//@   props C03
+//@   mode bv
+//@   ensures result == (f & 0x400 != 0)
+
+//@ func Flag.SetDuplicate
+//@   props C03
+//@   mode bv
+//@   modifies f
+//@   ensures *f == (value ? old(*f) | 0x400 : old(*f) &^ 0x400)
+
+//@ func Flag.Supplementary
+//@   props C03
+//@   mode bv
+//@   ensures result == (f & 0x800 != 0)
+
+//@ func Flag.SetSupplementary
+//@   props C03
+//@   mode bv
+//@   modifies f
+//@   ensures *f == (value ? old(*f) | 0x800 : old(*f) &^ 0x800)
